@@ -357,6 +357,9 @@ func checkC17(c *Check) {
 		c.Fail("R7", "loops", token.NoPos, "undecided: no function that ranges over the characters of an address was found")
 	}
 	c17EscapeState(c)
+	noTransitionalIDNA(c, "R10", []string{"framework/address", "framework/dns"})
+	c17LowerASCIITotal(c, "R11")
+	c17WholeCharacterCopied(c, "R12")
 }
 
 // R8: unquoting is a two-state scanner: a backslash (inside quotes, itself not escaped) escapes exactly the next
